@@ -31,12 +31,83 @@ def setup():
     build_all()
 
 
-def build_all():
+# Link-layout variants of the three link modes ("every supported link mode" is a configuration quantifier): other
+# linkers and link options change the program header table (count, order, position of PT_DYNAMIC, PT_PHDR present or
+# not), which the static-PIE self relocation walks. name -> (base mode, extra rustflags)
+_MINHDR = ["-C", "link-arg=-Wl,-z,nognustack", "-C", "link-arg=-Wl,-z,norelro", "-C", "link-arg=-Wl,--no-eh-frame-hdr",
+           "-C", "link-arg=-Wl,--build-id=none"]
+VARIANTS = {
+    "staticpie-minhdr": ("staticpie", _MINHDR),                                  # PT_DYNAMIC is the LAST header
+    "staticpie-bfd": ("staticpie", ["-C", "link-arg=-fuse-ld=bfd"]),            # GNU ld: no PT_PHDR, 4 LOADs
+    "staticpie-bfd-minhdr": ("staticpie", ["-C", "link-arg=-fuse-ld=bfd"] + _MINHDR),
+    "staticpie-mold": ("staticpie", ["-C", "link-arg=-fuse-ld=mold"]),          # PT_NOTE before the LOADs
+    "staticpie-norosegment": ("staticpie", ["-C", "link-arg=-Wl,-z,noseparate-code", "-C", "link-arg=-Wl,--no-rosegment"]),
+    "dynpie-minhdr": ("dynpie", _MINHDR),
+    "dynpie-bfd": ("dynpie", ["-C", "link-arg=-fuse-ld=bfd"]),
+    "static-minhdr": ("static", _MINHDR),
+    "static-bfd": ("static", ["-C", "link-arg=-fuse-ld=bfd"]),
+}
+PHDR_LAYOUT = {}        # (mode, profile) -> {"order": [...], "count": n, "dynamic": "first|middle|last|none", "key": str}
+VARIANT_BUILD_FAILURES = []
+
+
+def phdr_layout(exe):
+    """program header order from readelf -lW"""
+    try:
+        o = subprocess.run(["readelf", "-lW", exe], stdout=subprocess.PIPE, stderr=subprocess.PIPE, timeout=60).stdout.decode()
+    except (OSError, subprocess.TimeoutExpired):
+        return None
+    types = []
+    for l in o.splitlines():
+        f = l.split()
+        if l.startswith("  ") and len(f) >= 6 and f[0].replace("_", "").isupper() and f[1].startswith("0x"):
+            types.append(f[0])
+    if not types:
+        return None
+    if "DYNAMIC" not in types:
+        pos = "none"
+    else:
+        i = types.index("DYNAMIC")
+        pos = "first" if i == 0 else "last" if i == len(types) - 1 else "middle"
+    idx = types.index("DYNAMIC") if "DYNAMIC" in types else -1
+    return {"order": types, "count": len(types), "dynamic": pos, "dynamic_index": idx,
+            "key": "n=%d/dynamic=%s@%d/%s" % (len(types), pos, idx, ",".join(types))}
+
+
+def build_all(variants=True):
+    """-> {(mode-or-variant, profile): exe}. The three base modes must build (BuildError otherwise); a variant that
+    does not link here (linker missing, option unknown) is skipped and reported inconclusive."""
     out = {}
-    for mode in MODES:
+    del VARIANT_BUILD_FAILURES[:]
+
+    def build(name, base, extra):
+        res = {}
         for rel in (False, True):
-            d = vlib.build_nolibc(PROBE, "start_probe", mode, rel)
-            out[(mode, "release" if rel else "debug")] = os.path.join(d, "start_probe")
+            if not extra:
+                d = vlib.build_nolibc(PROBE, "start_probe", base, rel)
+            else:
+                rf = list(vlib.NOLIBC_BASE) + vlib.NOLIBC_MODES[base] + (vlib.NOLIBC_RELEASE_EXTRA if rel else []) + extra
+                d = vlib.cargo_build(PROBE, "start_probe-" + name, release=rel, rustflags=rf, target=vlib.TARGET)
+            res[(name, "release" if rel else "debug")] = os.path.join(d, "start_probe")
+        return res
+
+    jobs = [(m, m, None) for m in MODES]
+    if variants:
+        jobs += [(n, b, e) for n, (b, e) in sorted(VARIANTS.items())]
+    with concurrent.futures.ThreadPoolExecutor(max_workers=6) as ex:
+        futs = [(j, ex.submit(build, *j)) for j in jobs]
+        for (name, base, extra), f in futs:
+            try:
+                out.update(f.result())
+            except vlib.BuildError as e:
+                if extra is None:
+                    raise
+                VARIANT_BUILD_FAILURES.append("%s: %s" % (name, str(e)[-300:].replace("\n", " | ")))
+    PHDR_LAYOUT.clear()
+    for k, exe in out.items():
+        lay = phdr_layout(exe)
+        if lay:
+            PHDR_LAYOUT[k] = lay
     return out
 
 
@@ -349,6 +420,11 @@ class Launch:
         w = {"mode": self.mode, "profile": self.prof, "kind": self.kind, "path": os.fsdecode(self.path),
              "argv_hex": [h(a) for a in self.argv[:40]], "argc": len(self.argv),
              "envp_hex": [h(e) for e in self.envp[:40]], "envc": len(self.envp)}
+        lay = PHDR_LAYOUT.get((self.mode, self.prof))
+        if lay:
+            w["program_headers"] = lay["key"]
+        if self.mode in VARIANTS:
+            w["link_variant_flags"] = " ".join(VARIANTS[self.mode][1])
         if self.timens:
             w["time_namespace"] = {"launcher": "unshare --time --fork --monotonic %d --boottime %d" % self.timens,
                                    "monotonic_offset_s": self.timens[0], "boottime_offset_s": self.timens[1]}
@@ -372,6 +448,10 @@ class Launch:
         return {"mode": self.mode, "profile": self.prof, "kind": self.kind, "argv": [a.hex() for a in self.argv],
                 "envp": [e.hex() for e in self.envp], "keys": [k.hex() for k in self.keys], "iters": self.iters,
                 "uid": self.uid, "gid": self.gid, "direct": self.direct, "timens": list(self.timens) if self.timens else None}
+
+
+def base_mode(mode):
+    return VARIANTS[mode][0] if mode in VARIANTS else mode
 
 
 def kernel_adds_empty_arg():
@@ -528,13 +608,19 @@ class Judge:
             return
         ck.count("launches")
         ck.count("launches/" + cell)
+        lay = PHDR_LAYOUT.get((lc.mode, lc.prof))
+        if lay:
+            ck.note_distinct("phdr-layout/%s/%s" % (cell, lay["key"]))
+            ck.note_distinct("phdr-shape/%s/n=%d/dynamic=%s" % (base_mode(lc.mode), lay["count"], lay["dynamic"]))
         ck.add_eval(1)
         by = {}
         for t, pl in recs:
             by.setdefault(t, []).append(pl)
         by["_args_order"] = [(t, pl) for t, pl in recs if t in "Aa"]      # args(): order of Ok/Err matters
-        self.judge_args(lc, by, cell)
-        self.judge_lookups(lc, recs, cell)
+        # relation / argv classes of the link-layout variants are pooled per base mode (coarse distinct keys)
+        dcell = cell if lc.mode in MODES else "link-variants"
+        self.judge_args(lc, by, dcell)
+        self.judge_lookups(lc, recs, dcell)
         auxv = self.judge_aux(lc, by, cell)
         self.judge_resolve(lc, by, auxv, cell)
         self.judge_vdso(lc, by, res, cell)
@@ -710,7 +796,7 @@ class Judge:
             if got != exp:
                 self.viol("C07/aux/%s-mismatch" % name.split("-vs-")[0], lc,
                           {"field": name, "got": repr(got), "expected": repr(exp)})
-        if lc.kind in ("set-user-id", "uid-65534-gid-4243") and lc.prof == "release" and lc.mode != "static":
+        if lc.kind in ("set-user-id", "uid-65534-gid-4243") and lc.prof == "release" and lc.mode in ("dynpie", "staticpie"):
             ck.sample({"what": "aux", "cell": cell, "kind": lc.kind, "get_uid": uid, "get_gid": gid,
                        "auxv": {"AT_UID": auxv.get(11), "AT_EUID": auxv.get(12), "AT_GID": auxv.get(13), "AT_EGID": auxv.get(14),
                                 "AT_SECURE": auxv.get(23), "AT_BASE": auxv.get(7), "AT_SYSINFO_EHDR": auxv.get(33)},
@@ -915,11 +1001,28 @@ def plan(ck, bins, scratch):
     base_env = [b"HOME=/root", b"PATH=/usr/bin:/bin", b"LANG=C"]
     all_small = list(small_blocks(3))
     small2 = [t for t in small_blocks(2) if all(len(SMALL_NAMES[i]) <= 2 for i in t)]   # exhaustive core of the quick tier
+    full_sizes = (n_small_sample, n_random, n_argv)
     for (mode, prof), exe in sorted(bins.items()):
         r = vlib.rng(ck.seed, "c07", mode, prof)
         mk = lambda argv, envp, keys, kind, **kw: launches.append(Launch(mode, prof, exe, argv, envp, keys, kind, **kw))
+        # link-layout variants get the basic argv / env / aux / vDSO / relocation-bait cases (every launch carries the aux,
+        # resolve, relocation self-test and bait records), the three base modes the whole workload
+        full = mode in MODES
+        if full:
+            n_small_sample, n_random, n_argv = full_sizes
+        else:
+            n_small_sample, n_random, n_argv = (6, 4, 8) if quick else (130, 120, 32)
         # 1. small alphabet
-        if quick:
+        if not full:
+            for t in (small2[::6] if quick else small2):
+                envp, keys = small_launch(t)
+                mk([b"p"], envp, keys_small(envp, keys), "small-exhaustive2")
+            for _ in range(n_small_sample):
+                t = r.choice(all_small)
+                forms = [r.choice([0, 0, 0, 1, 2, 3, 4]) for _ in t]
+                envp, keys = small_launch(t, forms=forms)
+                mk([b"p"], envp, keys_small(envp, keys), "small-sampled")
+        elif quick:
             for t in small2:
                 envp, keys = small_launch(t)
                 keys = keys_small(envp, keys)
@@ -964,15 +1067,16 @@ def plan(ck, bins, scratch):
             mk(argv, envp, keys_for(r, envp, 40), "argv-" + kind)
         # 5. vDSO: a few traced launches (count of clock_gettime calls tells whether the vDSO answered) and one long
         #    untraced bracket run
-        for i in range(2 if quick else 6):
+        for i in range((2 if quick else 6) if full else 1):
             mk([b"start_probe", b"vdso"], list(base_env), [b"HOME"], "vdso-traced", iters=25)
-        mk([b"start_probe", b"vdso"], list(base_env), [b"HOME"], "vdso-direct", iters=400_000 if quick else 5_000_000,
-           direct=True)
+        mk([b"start_probe", b"vdso"], list(base_env), [b"HOME"], "vdso-direct",
+           iters=(400_000 if quick else 5_000_000) if full else (30_000 if quick else 400_000), direct=True)
         # 5b. the same brackets inside a time namespace where CLOCK_MONOTONIC, CLOCK_BOOTTIME (and so their distance
         #     to REALTIME) are pairwise far apart: a vDSO call with the wrong clock id cannot hide behind equal readings
         if TIMENS["ok"]:
             mk([os.fsencode(exe), b"vdso", b"timens"], list(base_env), [b"HOME"], "vdso-timens",
-               iters=60_000 if quick else 1_000_000, direct=True, timens=TIMENS["offsets"])
+               iters=(60_000 if quick else 1_000_000) if full else (10_000 if quick else 60_000), direct=True,
+               timens=TIMENS["offsets"])
         # 6. identities: gid != uid, unprivileged user, set-user-id copy (AT_SECURE), exec through a symlink with a
         #    non-UTF-8 name (AT_EXECFN)
         if os.getuid() == 0:
@@ -1009,6 +1113,9 @@ def keys_small(envp, keys):
 
 def run(ck, replay=None):
     bins = build_all()
+    for t in VARIANT_BUILD_FAILURES:
+        ck.note_inconclusive("link-layout variant not built here (toolchain): " + t)
+    ck.extra["program_header_layouts"] = {"%s/%s" % k: v["key"] for k, v in sorted(PHDR_LAYOUT.items())}
     BAIT_LAYOUT.clear()
     BAIT_LAYOUT.update(bait_layout(bins))
     ck.extra["reloc_bait_layout"] = {"%s/%s" % k: v for k, v in BAIT_LAYOUT.items()}
